@@ -733,7 +733,7 @@ func runSPIImplementations(a *Analyzer, r *Results) {
 				bad = append(bad, im)
 			}
 		}
-		r.Check("S0.spi", props("C01", "C02", "C03", "C07", "C08"), "the library contains no implementation of the consumer's trust-critical SPI interfaces (KeyManager, BlockUtils, Membership, Communication) and no message log or election scheduler other than the inventoried ones: every Verify/Validate call the other rules count is a call of the consumer's object, not of an interposed cache or filter", "interfaces."+n, a.P.Pos(obj.Pos()), len(bad) == 0,
+		r.Check("S0.spi", props("C01", "C02", "C03", "C04", "C07", "C08"), "the library contains no implementation of the consumer's trust-critical SPI interfaces (KeyManager, BlockUtils, Membership, Communication) and no message log or election scheduler other than the inventoried ones: every Verify/Validate call the other rules count is a call of the consumer's object, not of an interposed cache or filter", "interfaces."+n, a.P.Pos(obj.Pos()), len(bad) == 0,
 			"library type(s) "+strings.Join(bad, ", ")+" implement interfaces."+n+": calls the rules attribute to the consumer's SPI may be answered by library code", "W")
 	}
 }
@@ -871,7 +871,7 @@ func runStorageSlots(a *Analyzer, r *Results) {
 				}
 			}
 		}
-		r.Check("ST.slot", props("C01", "C03", "C09", "C10"), "every accessor of the in-memory message log touches only the log its name says (proposals / PREPAREs / COMMITs / votes are never mixed: a commit quorum is counted on COMMITs) and uses each of its (height, view, hash) parameters as a key of that log", f.Name(), a.P.Pos(f.Pos()), why == "", why, "D")
+		r.Check("ST.slot", props("C01", "C03", "C05", "C09", "C10", "C11"), "every accessor of the in-memory message log touches only the log its name says (proposals / PREPAREs / COMMITs / votes are never mixed: a commit quorum is counted on COMMITs) and uses each of its (height, view, hash) parameters as a key of that log", f.Name(), a.P.Pos(f.Pos()), why == "", why, "D")
 	}
 	if n == 0 {
 		r.Undecided = append(r.Undecided, "no accessor of InMemoryStorage found (ST.slot anchor)")
@@ -1254,7 +1254,7 @@ func runRoundBookkeeping(a *Analyzer, r *Results) {
 					} else if !ok2 {
 						why = "after the height was advanced, " + shortName(f) + " can return at " + bad2 + " without switching the height filter to the new term (ConsumeCacheMessages)"
 					}
-					r.Check("H6.atomic", props("C13", "C16", "C17", "C14"), "starting a round is all-or-nothing: once the height has been advanced every path installs the term built for the new height and hands it to the height filter; every refusal (stale context, failed increment) comes before the state changes, so a term that was built (and has armed its timer) is never dropped uninstalled", shortName(f), a.P.InstrPos(in), ok1 && ok2, why, "P")
+					r.Check("H6.atomic", props("C13", "C16", "C17", "C14", "C08", "C10", "C07"), "starting a round is all-or-nothing: once the height has been advanced every path installs the term built for the new height and hands it to the height filter; every refusal (stale context, failed increment) comes before the state changes, so a term that was built (and has armed its timer) is never dropped uninstalled", shortName(f), a.P.InstrPos(in), ok1 && ok2, why, "P")
 				}
 			}
 		}
@@ -1545,7 +1545,7 @@ func runStorageShape(a *Analyzer, r *Results) {
 		} else if len(bad) > 0 {
 			why = dedupSorted(bad)[0]
 		}
-		r.Check("ST.shape", props("C11", "C03", "C01", "C10"), "every per-sender level of a message log lies below keys for height, view and (for PREPARE / COMMIT) block hash: 'this sender already voted' is never decided on a coarser key, so a correct member's vote for another view or block is not dropped as a duplicate", fname, a.P.Pos(st.Field(i).Pos()), why == "", why, "D")
+		r.Check("ST.shape", props("C11", "C03", "C01", "C05", "C10"), "every per-sender level of a message log lies below keys for height, view and (for PREPARE / COMMIT) block hash: 'this sender already voted' is never decided on a coarser key, so a correct member's vote for another view or block is not dropped as a duplicate", fname, a.P.Pos(st.Field(i).Pos()), why == "", why, "D")
 	}
 }
 
